@@ -25,6 +25,11 @@ def gen(tier, rng):
         yield "tp z20,d5,o,rel,o,d6,o", {"burst": 6, "phase": 3}
         yield "tp d3,o,z10,d3,o", {"burst": 3, "phase": 2}
         yield "tp z20,d2,o,d4,o,rel,o,d9,o", {"burst": 9, "phase": 4}
+    # a burst, everything finishes, the surplus workers retire after the 5 s idle period, then new
+    # connections arrive while the remaining workers are busy: they must start at once
+    yield "tp z20,d8,o,rel,idle6200,o,d4,o,d3,o", {"burst": 8, "phase": "after-idle-retirement"}
+    if tier != "quick":
+        yield "tp z20,d30,o,rel,idle6200,o,d6,o", {"burst": 30, "phase": "after-idle-retirement"}
     for _ in range(2 if tier == "quick" else 8):
         for n in (1, 4, 5, 16, 64):
             yield "bs u %d %d" % (n, rng.choice([1, 3])), {"server_burst": n}
